@@ -66,6 +66,36 @@ func hasTiersAndFlat(cl jwt.Claims) bool {
 	return ok && len(ac.Limits.JetStreamTieredLimits) > 0 && ac.Limits.JetStreamLimits != (jwt.JetStreamLimits{})
 }
 
+// applyKnownDeviations rewrites the object the way K1 (flat JetStream limits cleared when tiers exist) and K2 (a zero
+// subs/data/payload limit of a scope template read back as -1) do.
+func applyKnownDeviations(cl jwt.Claims) {
+	ac, ok := cl.(*jwt.AccountClaims)
+	if !ok {
+		return
+	}
+	if len(ac.Limits.JetStreamTieredLimits) > 0 {
+		ac.Limits.JetStreamLimits = jwt.JetStreamLimits{}
+	}
+	fix := func(t *jwt.UserPermissionLimits) {
+		for _, f := range []*int64{&t.Subs, &t.Data, &t.Payload} {
+			if *f == 0 {
+				*f = -1
+			}
+		}
+	}
+	for k, s := range ac.SigningKeys {
+		switch us := s.(type) {
+		case *jwt.UserScope:
+			if us != nil {
+				fix(&us.Template)
+			}
+		case jwt.UserScope:
+			fix(&us.Template)
+			ac.SigningKeys[k] = us
+		}
+	}
+}
+
 // scopesOutOfPlace: a scope stored under a map key different from its own Key decodes under its own key
 func scopesOutOfPlace(cl jwt.Claims) bool {
 	ac, ok := cl.(*jwt.AccountClaims)
@@ -87,6 +117,21 @@ func runC03(c *Ctx) {
 	for i := 0; i < n; i++ {
 		kind := allKinds[c.R.Intn(len(allKinds))]
 		cl, kp := randomClaims(c, kind, true)
+		if i < 2 {
+			// fixed witnesses of the two open known findings, always first (K1: tiers + flat limits; K2: zero limit in a scope template)
+			kind = "account"
+			ac := jwt.NewAccountClaims(kr.acct[0])
+			if i == 0 {
+				ac.Limits.JetStreamLimits.MemoryStorage = 1024
+				ac.Limits.JetStreamTieredLimits = jwt.JetStreamTieredLimits{"R1": jwt.JetStreamLimits{DiskStorage: 2048}}
+			} else {
+				us := jwt.NewUserScope()
+				us.Key, us.Role = pubOf(kpN('A', 11)), "r"
+				us.Template.Subs = 0
+				ac.SigningKeys.AddScopedSigner(us)
+			}
+			cl, kp = ac, kpN('O', 0)
+		}
 		rp := map[string]interface{}{"kind": kind, "claims_dump": dumpAny(cl), "signer": pubOf(kp)}
 		tok, err := encodeOp(c, kind, cl, kp, true)
 		if err != nil {
@@ -103,6 +148,13 @@ func runC03(c *Ctx) {
 		case hasZeroScopeLimit(cl):
 			known = "scope-template-zero-limit"
 		}
+		// what the two recorded deviations, and nothing else, would turn the object into: a difference is listed under
+		// a known finding only when the decoded claims equal exactly this
+		wantKnown := ""
+		if known != "" {
+			applyKnownDeviations(cl)
+			wantKnown = dumpNorm(cl)
+		}
 		if derr != nil {
 			c.Violate("decode-refuses", "Decode refuses a token the library just encoded ("+kind+"): "+derr.Error(), rp)
 			continue
@@ -113,7 +165,7 @@ func runC03(c *Ctx) {
 		}
 		got := dumpNorm(dc)
 		if got != want && !scopesOutOfPlace(cl) {
-			if known != "" {
+			if known != "" && got == wantKnown {
 				c.Violate(known, "recorded deviation", rp)
 			} else {
 				c.Violate("field-lost", "decoded "+kind+" claims differ from the encoded object: "+firstDiff(want, got), rp)
